@@ -47,6 +47,13 @@ def main(argv=None) -> int:
         print(f"replay of {args.replay}: property held (no violation reproduced)")
         return 0
 
+    # scratch replay files of earlier runs of this property are obsolete
+    import glob
+    for old in glob.glob(os.path.join(report.REPLAY_DIR, f"{prop}-*.json")):
+        try:
+            os.remove(old)
+        except OSError:
+            pass
     ctx = report.Ctx(prop, args.tier, seed, args.jobs, module)
     try:
         module.run(ctx)
